@@ -97,8 +97,8 @@ def configs(tier):
                      script=['submit:0', 'wait:0', 'killworker:0',
                              'sleep:0.85', 'close', 'join'],
                      pool={}, oracle='c07', rr=True, timer_deviation=True,
-                     linepoints=['_repopulate_pool', '_create_worker_process',
-                                 'close'], expand_known=True),
+                     linepoints=['_repopulate_pool',
+                                 '_create_worker_process']),
                 2 if not T else 3, 30000 if not T else 150000))
     if T:
         out.append((dict(name='1proc/1job/timers', procs=1, jobs=J1,
